@@ -37,7 +37,7 @@ fn gen_lists(r: &mut Rng) -> (Vec<String>, Vec<String>) {
             net.push(format!("*${},redirect-rule=alias-a,domain={}|sub.{}", ty, d, d));
         }
     }
-    net.retain(|l| parse_net(l, true).map(|f| !f.mask.contains(adblock::filters::network::NetworkFilterMask::IS_COMPLETE_REGEX)).unwrap_or(false));
+    net.retain(|l| parse_net(l, true).map(|f| !f.mask.contains(adblock::filters::network::NetworkFilterMask::IS_COMPLETE_REGEX)).unwrap_or(true));
     let scripts = cosm::script_pool();
     let mut cos: Vec<String> = (0..r.below(8)).map(|_| cosm::gen_rule(r, &scripts)).collect();
     if r.pct(45) {
